@@ -208,6 +208,35 @@ func oracleMode(args []string) {
 		sum.emit()
 		return
 	}
+	if *prop == "C11" || *prop == "C12" {
+		// the grids of the attribute-level correspondence, rendered as documents
+		cases := linkGrid(rng, *nPol > 100)
+		if *prop == "C12" {
+			cases = forcedGrid(rng, *nPol > 100)
+		}
+		built := map[*PolicySpec]*bluemonday.Policy{}
+		views := map[*PolicySpec]*specView{}
+		for _, ac := range cases {
+			if built[ac.ps] == nil {
+				built[ac.ps] = ac.ps.buildGo()
+				views[ac.ps] = viewOf(ac.ps)
+			}
+			var b strings.Builder
+			b.WriteString("<" + ac.elem)
+			for _, a := range ac.attrs {
+				b.WriteString(" " + a.Key + "=\"" + html.EscapeString(a.Val) + "\"")
+			}
+			b.WriteString(">t")
+			c := oracleCase{ac.ps, built[ac.ps], b.String()}
+			sum.Evaluations++
+			if check(c, views[ac.ps]) {
+				distinct[c.doc+ac.ps.Name] = true
+			}
+		}
+		sum.Nontrivial = len(distinct)
+		sum.emit()
+		return
+	}
 	unsafeOK := false
 	for _, ps := range oraclePoliciesFor(*prop, rng, *nPol, unsafeOK) {
 		gp := ps.buildGo()
@@ -565,7 +594,7 @@ func oracleFor(prop string, fail func(oracleCase, string, map[string]any), sum *
 				}
 				if rel != nil {
 					seen := map[string]int{}
-					for _, f := range strings.Fields(*rel) {
+					for _, f := range strings.FieldsFunc(*rel, func(r rune) bool { return strings.ContainsRune(" \t\n\f\r", r) }) {
 						seen[strings.ToLower(f)]++
 					}
 					for _, w := range []string{"nofollow", "noreferrer", "noopener"} {
